@@ -9,12 +9,14 @@ use std::cell::RefCell;
 use std::collections::BTreeMap;
 use std::rc::Rc;
 
-use dfir_rs::scheduled::context::DfirErased;
+use dfir_rs::scheduled::context::{DfirErased, verif_hooks};
 use hv_common::{Args, Recorder, Rng};
 
 use crate::c24::{Out, RxStream};
 
 include!(concat!(env!("OUT_DIR"), "/c26_progs.rs"));
+
+const TICK_CAP: u64 = 3000;
 
 #[derive(Clone, Debug)]
 struct LoopInfo {
@@ -199,7 +201,27 @@ fn exec_line(rec: &mut Recorder, inst: &mut Option<Inst>, line: &str) {
         }
         (["avail"], Some(i)) => {
             let before: u64 = i.df.current_tick().into();
-            i.df.run_available_sync();
+            // guard against a run-until-idle that never becomes idle (reported, not waited for)
+            let ticks = Rc::new(std::cell::Cell::new(0u64));
+            {
+                let t2 = ticks.clone();
+                verif_hooks::set_point_hook(Some(Box::new(move |name| {
+                    if name == "rt_call" {
+                        t2.set(t2.get() + 1);
+                        if t2.get() > TICK_CAP {
+                            panic!("runaway run_available");
+                        }
+                    }
+                })));
+            }
+            let r = hv_common::catch(std::panic::AssertUnwindSafe(|| i.df.run_available_sync()));
+            verif_hooks::set_point_hook(None);
+            if r.is_err() {
+                rec.check(false, "run_available-does-not-become-idle", &format!("prog={} more than {} ticks", i.dsl, TICK_CAP));
+                rec.line(line, "runaway");
+                *inst = None;
+                return;
+            }
             let after: u64 = i.df.current_tick().into();
             let outs = i.collect(before, after);
             let s2 = std::mem::take(&mut i.pending2);
